@@ -1,6 +1,7 @@
 // Shared driver code: statistics, JSON output, replay-file reading, case execution.
 #pragma once
 
+#include <csignal>
 #include <fcntl.h>
 #include <unistd.h>
 
@@ -106,6 +107,26 @@ inline std::string tape_json(const std::vector<uint64_t> & t)
   return o + "]";
 }
 
+// Per-case watchdog: a library call that does not return ends the process with exit code 142 after VF_CASE_TIMEOUT
+// seconds (set by run.py per tier); the breadcrumb then names the case.  Without it one hanging case costs the whole
+// time budget of its process and the run ends "inconclusive".
+inline unsigned case_timeout()
+{
+  static const unsigned v = [] {
+    const char * e = std::getenv("VF_CASE_TIMEOUT");
+    const unsigned s = e ? static_cast<unsigned>(std::atoi(e)) : 0u;
+    if (s) {
+      std::signal(SIGALRM, [](int) {
+        static const char msg[] = "CASE-TIMEOUT: the case in progress did not return\n";
+        (void)!::write(2, msg, sizeof msg - 1);
+        ::_exit(142);
+      });
+    }
+    return s;
+  }();
+  return v;
+}
+
 // Run one case; fold the outcome into stats; returns true if the case failed.
 inline bool run_case(const CheckDef & c, Stats & st, const std::vector<uint64_t> & words, bool want_desc,
                      Ctx * out = nullptr)
@@ -114,7 +135,9 @@ inline bool run_case(const CheckDef & c, Stats & st, const std::vector<uint64_t>
   Ctx ctx;
   ctx.stats     = &st;
   ctx.want_desc = want_desc;
+  if (case_timeout()) ::alarm(case_timeout());
   c.fn(t, ctx);
+  if (case_timeout()) ::alarm(0);
   ++st.evals;
   if (ctx.discarded) {
     ++st.discarded;
